@@ -9,10 +9,9 @@ CONSTANTS
  HeadBug = FALSE
  EqLockstep = FALSE
  AllowSharedRehash = FALSE
- Sizes = {}
- ZeroBins = FALSE
+ Sizes = {0,3}
+ ZeroBins = TRUE
  SelfAssignClears = FALSE
 VIEW View
-ACTION_CONSTRAINT Emit
 INVARIANTS BinsOK Refines LengthOK ChainsOK LookupOK SharingOK EqualOK GhostOK
 CHECK_DEADLOCK FALSE
